@@ -240,6 +240,10 @@ def summarize_crash(rc, stderr):
     if m:
         fn = re.search(r"#0 0x[0-9a-f]+ in (\w+)", stderr)
         return "CRASH ubsan:%s:%s" % (re.sub(r"[^\w]+", "-", m.group(1))[:60], fn.group(1) if fn else "?")
+    if rc == -4:
+        return "CRASH trap:SIGILL(-fsanitize=local-bounds / unreachable)"
+    if rc < 0:
+        return "CRASH signal:%d" % (-rc)
     return "CRASH rc=%d" % rc
 
 
